@@ -475,6 +475,12 @@ impl Storm {
             _ => {
                 let b = self.some_bank(w);
                 let cur = w.bank(b).config.asset_tag;
+                if cur > 1 {
+                    // the tag of a staked / pass-through bank decides how many oracle accounts the
+                    // risk engine expects for it; flipping it is an admin misconfiguration, not a
+                    // behaviour any property speaks about
+                    return w.exec(m, &[w.ix_accrue(b)], &[]).await;
+                }
                 let mut o = BankConfigOpt::default();
                 o.asset_tag = Some(if cur == 0 { 1 } else { 0 });
                 let i = ix::configure_bank(gk, admin.pubkey(), w.banks[b].key, o);
